@@ -34,7 +34,8 @@ Inductive waker := WCmd (c slot g : nat) | WExec (q : nat).
 (* futures mpsc::unbounded, one per shell request *)
 Record chan := mkChan { ch_buf : list nat; ch_tx : bool; ch_rx : bool; ch_wk : option waker }.
 Definition chan0 := mkChan [] true true None.
-Inductive rkind := RNever | ROnce (c : nat) | RMany (c : nat).
+Inductive rkind := RNever | ROnce (c : nat) | RMany (c : nat)
+| RLegacy (c : nat).   (* a one-shot request of the legacy capability API: its closure holds a weak reference to the future's cell *)
 Record effect := mkEff { e_tag : nat; e_val : nat; e_maps : list nat; e_res : rkind }.
 Record event := mkEv { v_tag : nat; v_val : nat; v_maps : list nat }.
 
@@ -48,6 +49,7 @@ Inductive leaf :=
 | LJoin (uid : nat) (k : task)
 | LHost (cid meff mev : nat) (k : task)
 | LYield (n : nat) (k : task)
+| LLeg (sent : bool) (tg v ch x : nat) (k : task)   (* capability/shell_request.rs ShellRequest awaited in a Command task *)
 | LBoth (a b : subreq) (x1 x2 : nat) (k : task)
 | LRace (a b : subreq) (x : nat) (k : task).
 Record frame := mkFr { fr_sent : bool; fr_tg : nat; fr_v : nat; fr_ch : nat; fr_x : nat;
@@ -79,21 +81,25 @@ Record heap := mkH {
   woken : list bool;             (* per-poll CommandWaker.woken, indexed by generation *)
   xready : list nat;             (* the hosting executor's ready queue (Core layer) *)
   aborted : list (nat * nat);    (* (name, n): abort called on the handles named so of commands with epoch < n *)
-  log : list nat                 (* branch tags, for coverage *)
+  log : list nat;                (* branch tags, for coverage *)
+  hout : list effect             (* the core's request channel: effects sent straight to it, by the executor task that
+                                    forwards a hosted command's effects and by legacy capability contexts *)
 }.
-Definition H0 := mkH [] [] [] [] [] [] [].
+Definition H0 := mkH [] [] [] [] [] [] [] [].
 
 Definition gcmd c (H : heap) := getd cmd0 c (cmds H).
-Definition ucmd c f (H : heap) := mkH (chans H) (tfl H) (updd cmd0 c f (cmds H)) (woken H) (xready H) (aborted H) (log H).
+Definition ucmd c f (H : heap) := mkH (chans H) (tfl H) (updd cmd0 c f (cmds H)) (woken H) (xready H) (aborted H) (log H) (hout H).
 Definition gch c (H : heap) := getd chan0 c (chans H).
-Definition uch c f (H : heap) := mkH (updd chan0 c f (chans H)) (tfl H) (cmds H) (woken H) (xready H) (aborted H) (log H).
+Definition uch c f (H : heap) := mkH (updd chan0 c f (chans H)) (tfl H) (cmds H) (woken H) (xready H) (aborted H) (log H) (hout H).
 Definition gtf u (H : heap) := getd tf0 u (tfl H).
-Definition utf u f (H : heap) := mkH (chans H) (updd tf0 u f (tfl H)) (cmds H) (woken H) (xready H) (aborted H) (log H).
-Definition note n (H : heap) := mkH (chans H) (tfl H) (cmds H) (woken H) (xready H) (aborted H) (n :: log H).
-Definition set_woken g (H : heap) := mkH (chans H) (tfl H) (cmds H) (updd false g (fun _ => true) (woken H)) (xready H) (aborted H) (log H).
-Definition push_xready q (H : heap) := mkH (chans H) (tfl H) (cmds H) (woken H) (xready H ++ [q]) (aborted H) (log H).
-Definition set_xready l (H : heap) := mkH (chans H) (tfl H) (cmds H) (woken H) l (aborted H) (log H).
-Definition add_aborted n (H : heap) := mkH (chans H) (tfl H) (cmds H) (woken H) (xready H) ((n, length (cmds H)) :: aborted H) (log H).
+Definition utf u f (H : heap) := mkH (chans H) (updd tf0 u f (tfl H)) (cmds H) (woken H) (xready H) (aborted H) (log H) (hout H).
+Definition note n (H : heap) := mkH (chans H) (tfl H) (cmds H) (woken H) (xready H) (aborted H) (n :: log H) (hout H).
+Definition set_woken g (H : heap) := mkH (chans H) (tfl H) (cmds H) (updd false g (fun _ => true) (woken H)) (xready H) (aborted H) (log H) (hout H).
+Definition push_xready q (H : heap) := mkH (chans H) (tfl H) (cmds H) (woken H) (xready H ++ [q]) (aborted H) (log H) (hout H).
+Definition set_xready l (H : heap) := mkH (chans H) (tfl H) (cmds H) (woken H) l (aborted H) (log H) (hout H).
+Definition push_hout e (H : heap) := mkH (chans H) (tfl H) (cmds H) (woken H) (xready H) (aborted H) (log H) (hout H ++ [e]).
+Definition set_hout l (H : heap) := mkH (chans H) (tfl H) (cmds H) (woken H) (xready H) (aborted H) (log H) l.
+Definition add_aborted n (H : heap) := mkH (chans H) (tfl H) (cmds H) (woken H) (xready H) ((n, length (cmds H)) :: aborted H) (log H) (hout H).
 
 (* branch tags *)
 Definition B_AtomicEmpty := 1.
@@ -171,10 +177,10 @@ Definition chan_drop_rx (ch : nat) (H : heap) : heap :=
 Definition chan_reg (ch : nat) (w : waker) (H : heap) :=
   uch ch (fun c => mkChan (ch_buf c) (ch_tx c) (ch_rx c) (Some w)) H.
 Definition new_chan (H : heap) : nat * heap :=
-  (length (chans H), mkH (chans H ++ [chan0]) (tfl H) (cmds H) (woken H) (xready H) (aborted H) (log H)).
+  (length (chans H), mkH (chans H ++ [chan0]) (tfl H) (cmds H) (woken H) (xready H) (aborted H) (log H) (hout H)).
 
 Definition drop_req (e : effect) (H : heap) : heap :=
-  match e_res e with RNever => H | ROnce ch | RMany ch => chan_drop_tx ch H end.
+  match e_res e with RNever | RLegacy _ => H | ROnce ch | RMany ch => chan_drop_tx ch H end.
 
 (* strong count of a per-poll CommandWaker = 1 (the executor's Arc) + cells holding a clone *)
 Definition wk_gen (w : waker) (g : nat) := match w with WCmd _ _ g' => Nat.eqb g g' | WExec _ => false end.
@@ -186,13 +192,13 @@ Definition holds (g : nat) (H : heap) : bool :=
 
 (* ---------- Command::new + cmd.spawn(..) ---------- *)
 Definition new_tflag (H : heap) : nat * heap :=
-  (length (tfl H), mkH (chans H) (tfl H ++ [mkTF false false true []]) (cmds H) (woken H) (xready H) (aborted H) (log H)).
+  (length (tfl H), mkH (chans H) (tfl H ++ [mkTF false false true []]) (cmds H) (woken H) (xready H) (aborted H) (log H) (hout H)).
 Definition fs_of (en : env) (t : task) := mkF en (LRun t) [].
 Definition new_cmd (names : list nat) (ep : option nat) (en : env) (main : task) (extra : list task) (H : heap) : nat * heap :=
   let (u0, H1) := new_tflag H in
   let cid := length (cmds H1) in
   let c := mkCmd true [0] [] [Occ (mkT u0 (fs_of en main))] 1 1 [] [] None names u0 (match ep with Some e => e | None => cid end) in
-  let H2 := mkH (chans H1) (tfl H1) (cmds H1 ++ [c]) (woken H1) (xready H1) (aborted H1) (log H1) in
+  let H2 := mkH (chans H1) (tfl H1) (cmds H1 ++ [c]) (woken H1) (xready H1) (aborted H1) (log H1) (hout H1) in
   let H3 := fold_left (fun Hh t => let (u, Hh') := new_tflag Hh in
                ucmd cid (fun cm => set_spawnq (c_spawnq cm ++ [mkT u (fs_of en t)]) cm) Hh') extra H2 in
   (cid, H3).
@@ -211,6 +217,7 @@ Fixpoint drop_fs (fuel : nat) (fs : fstate) (H : heap) : heap :=
   match fuel with 0 => H | S f =>
   let H1 := match f_leaf fs with
             | LReq _ dead _ _ ch _ _ => if dead then H else chan_drop_rx ch H
+            | LLeg _ _ _ ch _ _ => chan_drop_rx ch H
             | LHost cid _ _ _ => drop_cmd f cid H
             | LBoth a b _ _ _ | LRace a b _ _ => sub_drop b (sub_drop a H)
             | _ => H end in
@@ -297,6 +304,7 @@ Definition poll_body (F : rtfuns) (c : nat) (w : waker) (fs : fstate) (H : heap)
                        (utf (getd 0 h en) (fun tf => mkTF (tf_fin tf) true (tf_alive tf) (tf_joinw tf)) H)
     | TYield n k => rpoll F c w (mkF en (LYield n k) st) H
     | TAbortC n k => rpoll F c w (mkF en (LRun k) st) (add_aborted n H)
+    | TLegReq tg e x k => let (ch, H1) := new_chan H in rpoll F c w (mkF en (LLeg false tg (eval en e) ch x k) st) H1
     | TBoth tg1 e1 x1 tg2 e2 x2 k =>
         let (ch1, H1) := new_chan H in let (ch2, H2) := new_chan H1 in
         rpoll F c w (mkF en (LBoth (SQ false false tg1 (eval en e1) ch1) (SQ false false tg2 (eval en e2) ch2) x1 x2 k) st) H2
@@ -336,6 +344,14 @@ Definition poll_body (F : rtfuns) (c : nat) (w : waker) (fs : fstate) (H : heap)
     match n with
     | 0 => go (LRun k) H
     | S m => Some (Pend (mkF en (LYield m k) st), wake WF w H)
+    end
+  | LLeg sent tg v ch x k =>
+    (* legacy ShellRequest::poll: send on the first poll (straight to the core's channel), then take the
+       result if it is there, else store the CURRENT waker (refreshed on every poll) *)
+    let H1 := if sent then H else push_hout (mkEff tg v [] (RLegacy ch)) H in
+    match ch_buf (gch ch H1) with
+    | m :: _ => go_env (setv x m en) k (chan_drop_rx ch H1)
+    | [] => Some (Pend (mkF en (LLeg true tg v ch x k) st), chan_reg ch w H1)
     end
   | LBoth a b x1 x2 k =>
     (* join!: poll both (in order) with the same waker; ready when both are done *)
@@ -436,7 +452,7 @@ Definition run_task_body (F : rtfuns) (cid slot : nat) (H : heap) : option (tsta
     if tf_abort (gtf (t_uid t) H) || (Nat.eqb (t_uid t) (c_task0 (gcmd cid H)) && was_aborted cid H)
     then Some (Completed, note B_AbortedBeforePoll H) else
     let g := length (woken H) in
-    let H1 := mkH (chans H) (tfl H) (cmds H) (woken H ++ [false]) (xready H) (aborted H) (log H) in
+    let H1 := mkH (chans H) (tfl H) (cmds H) (woken H ++ [false]) (xready H) (aborted H) (log H) (hout H) in
     match rpoll F cid (WCmd cid slot g) (t_fs t) H1 with
     | None => None
     | Some (Rdy, H2) => Some (Completed, ucmd cid (slab_set slot (mkT (t_uid t) (mkF [] (LRun TRet) []))) H2)
